@@ -172,7 +172,7 @@ func individualAtoms() []*reNode {
 	}
 	// every printable unescaped character as a literal
 	for c := rune(0x20); c <= 0x7E; c++ {
-		if !strings.ContainsRune(reMetaChars, c) {
+		if !strings.ContainsRune(reMetaChars, c) && c != '^' { // a leading '^' is the start anchor: not an unambiguous literal
 			out = append(out, leaf(string(c), rsOf(c)))
 		}
 	}
